@@ -28,6 +28,12 @@ class CollectionFlow(Engine):
             if e.get('%stub') is not None:
                 v = e.get('%' + name)
                 return [(v if v is not None else Unknown(f'attribute {name} of a message stub'), st)]
+            if e.get('%symbolic') is not None and not name.startswith('__'):
+                # a restored message is opaque: its data attributes (properties over its document) are unknown values of a
+                # schema-valid message, only its methods are followed
+                f = self.prog.classes[e.cls].find(name)
+                if f is None or f.kind == 'property':
+                    return [(Unknown(f'attribute {name} of a restored message'), st)]
         return super().getattr_(o, name, st, node)
 
     def make_reader(self, st: State, *, message_id, ro_id, mos_type, restore_args):
@@ -157,6 +163,10 @@ class CollectionFlow(Engine):
         ro = None
         for v, s in make_object(self, prog.cls('RunningOrder'), root, st):
             ro, st = v, s
+        # the collection's running order was classified by its roCreate: that element is there
+        req = dict(st.mon.get('sym:rootreq') or {})
+        req[root.sym] = (base_tag_literal(self, prog.cls('RunningOrder')),)
+        st.mon['sym:rootreq'] = req
         mark = st.serial
         rd, st = self.make_reader(st, message_id=NumV(), ro_id=StrV(('ro id',)), mos_type=Unknown('class'), restore_args=TupleV((StrV(('source',)),)))
         rsym = rd.sym
